@@ -1,5 +1,6 @@
 import Varint.Lemmas.PackedSeq
 import Varint.Lemmas.Packed
+import Varint.Bridge.Packed
 /-
   C09 — packed bit arrays: element isolation and sorted-array semantics.
   `S` = slot width, `b` = value width, `ws` = the slot array, element `i` = bits [i*b, i*b+b) of the
@@ -178,5 +179,129 @@ example : elems 8 12 (insertSorted 8 12 [33, 225, 61, 188, 250, 255] 3 0x200) 4 
 example : Fits 8 12 1 [0, 0, 0] := by unfold Fits; decide
 example : get 8 12 (set 8 12 [255, 255, 255] 1 0xabc) 1 = 0xabc ∧ get 8 12 (set 8 12 [255, 255, 255] 1 0xabc) 0 = 0xfff := by
   decide
+
+/-! ## C09 on the code itself: the default instantiation of src/varintPacked.h (12-bit values, uint32_t slots,
+    `varintPacked12*`), machine-translated from the CURRENT header (Varint.Gen.C.packed12*; bridge theorems in
+    Varint/Bridge/Packed.lean). `memOf ws` is the slot array seen as memory, `applyStores ws st` the array after the
+    C's stores. -/
+open Varint.Gen.C Varint.Bridge Varint.Bridge.Bits Varint.Bridge.Packed in
+/-- **element isolation on the translated C**: after `varintPacked12Set(dst, i, v)` — whose stores all fall inside the
+    slot array — `varintPacked12Get` returns `v` at `i` and the old value at every other index; every storage bit outside
+    the element is unchanged -/
+theorem c_packed12_set_get (ws : List Nat) (hw : WordsOK 32 ws) (i v : Nat) (hi : i < 2 ^ 32) (hv : v < 2 ^ 12)
+    (hf : Fits 32 12 i ws) :
+    (∀ p ∈ packed12Set (memOf ws) i v, p.1 < ws.length) ∧
+    packed12Get (memOf (applyStores ws (packed12Set (memOf ws) i v))) i = v ∧
+    (∀ j, j ≠ i → j < 2 ^ 32 →
+      packed12Get (memOf (applyStores ws (packed12Set (memOf ws) i v))) j = packed12Get (memOf ws) j) ∧
+    (∀ p, (p < i * 12 ∨ i * 12 + 12 ≤ p) →
+      (val 32 (applyStores ws (packed12Set (memOf ws) i v))).testBit p = (val 32 ws).testBit p) := by
+  have hset := packed12Set_eq ws hw i v hi hv
+  obtain ⟨_, hok, _⟩ := val_set 32 12 i v ws (by omega) (by omega) hv hw hf
+  refine ⟨packed12Set_inrange ws (memOf ws) (memOf_lt32 ws hw) i v hi hv hf, ?_, ?_, ?_⟩
+  · rw [hset, packed12Get_eq _ hok i hi]
+    exact packed_get_set 32 12 i v ws (by omega) (by omega) hv hw hf
+  · intro j hji hj
+    rw [hset, packed12Get_eq _ hok j hj, packed12Get_eq ws hw j hj]
+    exact packed_set_other 32 12 i j v ws (by omega) (by omega) hv hw hf (fun e => hji e.symm) (by omega)
+  · intro p hp
+    rw [hset]
+    exact (packed_bits_outside 32 12 i v ws (by omega) (by omega) hv hw hf p hp).1
+
+open Varint.Gen.C Varint.Bridge Varint.Bridge.Bits Varint.Bridge.Packed in
+/-- **sorted-array semantics on the translated C** (`varintPacked12Member`): on a sorted array of `len` < 2^31 elements
+    the result is non-negative exactly when the value is present, and then it is the index of the FIRST equal element -/
+theorem c_packed12_member (ws : List Nat) (hw : WordsOK 32 ws) (len v : Nat) (hlen : len < 2 ^ 31)
+    (hsorted : (elems 32 12 ws len).Pairwise (· ≤ ·)) (fuel : Nat) (hfu : len < fuel) :
+    ∃ r : Int, packed12Member fuel (memOf ws) len v = some r ∧ (r ≥ 0 ↔ v ∈ elems 32 12 ws len) ∧
+      (r ≥ 0 → ∃ m : Nat, r = (m : Int) ∧ m < len ∧ packed12Get (memOf ws) m = v ∧
+        ∀ k, k < m → packed12Get (memOf ws) k ≠ v) ∧ (v ∉ elems 32 12 ws len → r = -1) := by
+  obtain ⟨h1, h2, h3⟩ := packed_member_spec 32 12 ws len v hsorted
+  refine ⟨_, packed12Member_eq ws hw len v hlen fuel hfu, h1, ?_, h3⟩
+  intro hr
+  obtain ⟨m, e, hm, hg, hfirst⟩ := h2 hr
+  refine ⟨m, e, hm, ?_, ?_⟩
+  · rw [packed12Get_eq ws hw m (by omega)]; exact hg
+  · intro k hk; rw [packed12Get_eq ws hw k (by omega)]; exact hfirst k hk
+
+open Varint.Gen.C Varint.Bridge Varint.Bridge.Bits Varint.Bridge.Packed in
+/-- **`varintPacked12InsertSorted` on the translated C**: every store falls inside the slot array, and the array it
+    leaves is sorted and holds exactly one more copy of `v` -/
+theorem c_packed12_insert_sorted (ws : List Nat) (hw : WordsOK 32 ws) (len v : Nat) (hlen : len < 2 ^ 31)
+    (hf : FitsN 32 12 ws (len + 1)) (hv : v < 2 ^ 12) (hsorted : (elems 32 12 ws len).Pairwise (· ≤ ·))
+    (fuel : Nat) (hfu : len < fuel) :
+    ∃ st, packed12InsertSorted fuel (memOf ws) len v = some st ∧ (∀ p ∈ st, p.1 < ws.length) ∧
+      (elems 32 12 (applyStores ws st) (len + 1)).Pairwise (· ≤ ·) ∧
+      (elems 32 12 (applyStores ws st) (len + 1)).Perm (v :: elems 32 12 ws len) := by
+  obtain ⟨st, h1, h2, h3⟩ := packed12InsertSorted_eq ws hw len v hlen hf hv fuel hfu
+  obtain ⟨hs, hp⟩ := packed_insert_sorted 32 12 (by omega) (by omega) ws len v hw hf hv hsorted
+  exact ⟨st, h1, h2, by rw [h3]; exact hs, by rw [h3]; exact hp⟩
+
+open Varint.Gen.C Varint.Bridge Varint.Bridge.Bits Varint.Bridge.Packed in
+/-- **`varintPacked12Insert` / `varintPacked12Delete` on the translated C** refine `List.insertIdx` / `List.eraseIdx`
+    on the element list; all stores inside the slot array -/
+theorem c_packed12_insert_delete (ws : List Nat) (hw : WordsOK 32 ws) (len off v : Nat) (hlen : len < 2 ^ 32 - 1)
+    (hv : v < 2 ^ 12) (fuel : Nat) (hfu : len < fuel) :
+    (off ≤ len → FitsN 32 12 ws (len + 1) →
+      ∃ st, packed12Insert fuel (memOf ws) len off v = some st ∧ (∀ p ∈ st, p.1 < ws.length) ∧
+        elems 32 12 (applyStores ws st) (len + 1) = (elems 32 12 ws len).insertIdx off v) ∧
+    (off < len → FitsN 32 12 ws len →
+      ∃ st, packed12Delete fuel (memOf ws) len off = some st ∧ (∀ p ∈ st, p.1 < ws.length) ∧
+        elems 32 12 (applyStores ws st) (len - 1) = (elems 32 12 ws len).eraseIdx off) := by
+  constructor
+  · intro hoff hf
+    obtain ⟨st, h1, h2, h3⟩ := packed12Insert_eq ws hw len off v hoff (by omega) hf hv fuel (by omega)
+    exact ⟨st, h1, h2, by rw [h3]; exact (packed_insert_refines 32 12 (by omega) (by omega) ws len off v hoff hw hf hv).1⟩
+  · intro hoff hf
+    obtain ⟨st, h1, h2, h3⟩ := packed12Delete_eq ws hw len off hoff (by omega) hf fuel (by omega)
+    exact ⟨st, h1, h2, by rw [h3]; exact (packed_delete_refines 32 12 (by omega) (by omega) ws len off hoff hw hf).1⟩
+
+open Varint.Gen.C Varint.Bridge Varint.Bridge.Bits Varint.Bridge.Packed in
+/-- **`varintPacked12DeleteMember` on the translated C**: present ⇒ true and the first occurrence is erased, the rest
+    stays sorted; absent ⇒ false and not a single store -/
+theorem c_packed12_delete_member (ws : List Nat) (hw : WordsOK 32 ws) (len v : Nat) (hlen : len < 2 ^ 31)
+    (hf : FitsN 32 12 ws len) (hsorted : (elems 32 12 ws len).Pairwise (· ≤ ·)) (fuel : Nat) (hfu : len < fuel) :
+    ∃ r st, packed12DeleteMember fuel (memOf ws) len v = some (r, st) ∧ (∀ p ∈ st, p.1 < ws.length) ∧
+      (v ∈ elems 32 12 ws len → r = 1 ∧
+        elems 32 12 (applyStores ws st) (len - 1) = (elems 32 12 ws len).erase v ∧
+        (elems 32 12 (applyStores ws st) (len - 1)).Pairwise (· ≤ ·)) ∧
+      (v ∉ elems 32 12 ws len → r = 0 ∧ applyStores ws st = ws) := by
+  obtain ⟨r, st, h1, h2, h3, h4⟩ := packed12DeleteMember_eq ws hw len v hlen hf fuel hfu
+  obtain ⟨hin, hout⟩ := packed_delete_member 32 12 (by omega) (by omega) ws len v hw hf hsorted
+  refine ⟨r, st, h1, h2, ?_, ?_⟩
+  · intro hm
+    obtain ⟨a, b, c⟩ := hin hm
+    rw [← h3] at a b c
+    simp only [decide_eq_true_eq] at a
+    exact ⟨a, b, c⟩
+  · intro hm
+    have e := hout hm
+    rw [← h3] at e
+    have e1 := congrArg Prod.fst e
+    have e2 := congrArg Prod.snd e
+    simp only [decide_eq_false_iff_not] at e1 e2
+    exact ⟨by omega, e1⟩
+
+open Varint.Gen.C Varint.Bridge Varint.Bridge.Bits Varint.Bridge.Packed in
+/-- **`varintPacked12SetIncr` / `varintPacked12SetHalf` on the translated C** (non-negative increment whose result
+    fits): the addressed element becomes old + d, resp. old / 2, and every other element keeps its value -/
+theorem c_packed12_incr_half (ws : List Nat) (hw : WordsOK 32 ws) (i j d : Nat) (hi : i < 2 ^ 32) (hj : j < 2 ^ 32)
+    (hf : Fits 32 12 i ws) (hij : i ≠ j) (hd : packed12Get (memOf ws) i + d < 2 ^ 12) :
+    packed12Get (memOf (applyStores ws (packed12SetIncr (memOf ws) i (d : Int)))) i = packed12Get (memOf ws) i + d ∧
+    packed12Get (memOf (applyStores ws (packed12SetIncr (memOf ws) i (d : Int)))) j = packed12Get (memOf ws) j ∧
+    packed12Get (memOf (applyStores ws (packed12SetHalf (memOf ws) i))) i = packed12Get (memOf ws) i / 2 ∧
+    packed12Get (memOf (applyStores ws (packed12SetHalf (memOf ws) i))) j = packed12Get (memOf ws) j := by
+  rw [packed12Get_eq ws hw i hi] at hd ⊢
+  rw [packed12Get_eq ws hw j hj]
+  obtain ⟨a, b, c, e⟩ := packed_incr_half_local 32 12 i j d ws (by omega) (by omega) hw hf hij (by omega) hd
+  have hok1 : WordsOK 32 (setIncr 32 12 ws i d) := (val_set 32 12 i _ ws (by omega) (by omega) hd hw hf).2.1
+  have hok2 : WordsOK 32 (setHalf 32 12 ws i) := by
+    unfold setHalf
+    split
+    · exact hw
+    · exact (val_set 32 12 i _ ws (by omega) (by omega) (by omega) hw hf).2.1
+  rw [packed12SetIncr_eq ws hw i d hi hd, packed12SetHalf_eq ws hw i hi, packed12Get_eq _ hok1 i hi,
+    packed12Get_eq _ hok1 j hj, packed12Get_eq _ hok2 i hi, packed12Get_eq _ hok2 j hj]
+  exact ⟨a, b, c, e⟩
 
 end Varint.Props.C09
